@@ -138,6 +138,29 @@ class RefCalendar:
     def slot_start(self, idx):
         return self.pstart + timedelta(seconds=idx * self.L)
 
+    def project_working_at(self, t):
+        """the PROJECT calendar (project-level workinghours or the default Mon-Fri 9-17, minus project vacations / leaves) at instant t"""
+        for a, b in self.global_off:
+            if a <= t < b:
+                return False
+        tab = self.__dict__.get("_ptable")
+        if tab is None:
+            tab = self.__dict__["_ptable"] = week_table(self.spec.get("pwh") or DEFAULT_HOURS)
+        return bool(tab[t.weekday()][t.hour * 60 + t.minute])
+
+    def advance_working(self, t, hours):
+        """t advanced by `hours` of project working time, counted in whole slots from the slot containing t (gaplength)"""
+        need = int(round(hours * 3600 / self.L))
+        idx = int((t - self.pstart).total_seconds() // self.L)
+        got = 0
+        guard = 0
+        while got < need and guard < 200000:
+            if self.project_working_at(self.slot_start(idx)):
+                got += 1
+            idx += 1
+            guard += 1
+        return self.slot_start(idx)
+
     def working_seconds(self, rid, idx):
         """Working seconds of resource rid inside slot idx (sampled at the calendar's own grid)."""
         return _ws(self, rid, idx)
